@@ -50,6 +50,8 @@ def plan(prop):
         # alternative time windows per task: the activity that is returned / put into the shadow tour carries the CHOSEN window
         for k, n in ([(0, 1), (0, 2)] if Q else [(0, 1), (0, 2), (1, 1)]):
             obs.append((core, lambda ctx, k=k, n=n: co.ob_insertion_e2e(ctx, k, n, True, 16, 2)))
+        for k, n in ([(0, 1)] if Q else [(0, 1), (0, 2), (1, 1)]):
+            obs.append((core, lambda ctx, k=k, n=n: co.ob_insertion_e2e(ctx, k, n, True, 16, 1, 2)))
         for k, closed in ([(0, True), (1, True)] if Q else [(0, True), (1, True), (1, False), (2, True)]):
             obs.append((core, lambda ctx, k=k, c=closed: co.ob_insertion_e2e_both(ctx, k, c)))
         cap = [(0, 'single', True), (1, 'single', True), (0, 'shipment', True), (1, 'shipment', True), (1, 'single', False)] if Q else \
